@@ -6,6 +6,7 @@ CONSTANTS
   POptSets = {<<>>, <<"PassDoubleDash">>, <<"HelpFlag", "PassDoubleDash", "PrintErrors">>, <<"IgnoreUnknown", "PassAfterNonOption">>}
   Handlers = {"none"}
   Policy = {"opts", "cmds", "odd", "unknown"}
+  PreMode = "none"
   Emit = FALSE
 INVARIANTS
   Deterministic Terminates Typed ConservationStep Conservation ChainFromWords ScopeAgrees OccInScope UnknownNeverSilent
